@@ -120,6 +120,7 @@ func runC01(c *core.Ctx) {
 		}
 	}
 	c01CustomCompiler(c)
+	c01RequestModeDefaults(c, &idx)
 	if c.Shard == 0 {
 		c.CoverN("workload", "systematic_schemas", len(schemas))
 	}
@@ -178,14 +179,23 @@ func c01One(c *core.Ctx, s gen.S, values []any, extra []any, annot bool) {
 		}
 		seen[vCanon] = true
 		ref := refeval.Eval(s, v, refeval.Opts{})
-		for rep := 0; rep < 2; rep++ {
+		for rep := 0; rep < 3; rep++ {
 			var kv any
 			repName := "float64"
-			if rep == 0 {
+			switch rep {
+			case 0:
 				kv = gen.CloneValue(v)
-			} else {
+			case 1:
 				kv = asNumberRep(v)
 				repName = "json.Number"
+			default:
+				// the same numbers in the other spellings JSON allows, as a decoder with UseNumber hands them over
+				var changed bool
+				if kv, changed = asNumberRepSpelled(v); !changed {
+					continue
+				}
+				repName = "json.Number-respelled"
+				c.Cover("representations", repName)
 			}
 			c.Eval()
 			acc, pi, _ := kinAccepts(sc, kv)
@@ -264,6 +274,8 @@ func c01Disagrees(kind, rep, fn string) func(gen.S, any) bool {
 		kv := gen.CloneValue(v)
 		if rep == "json.Number" {
 			kv = asNumberRep(v)
+		} else if rep == "json.Number-respelled" {
+			kv, _ = asNumberRepSpelled(v)
 		}
 		acc, pi, _ := kinAccepts(sc, kv)
 		if kind == "panic" {
@@ -295,10 +307,10 @@ func c01Report(c *core.Ctx, s gen.S, v any, rep, kind string, pi *core.PanicInfo
 	if pi != nil {
 		feat = map[string]string{"kind": "panic", "func": pi.Func, "class": pi.Class}
 		detail += "\npanic: " + pi.Value + "\n" + core.Truncate(pi.Stack, 3000)
-	} else if rep == "json.Number" {
+	} else if rep == "json.Number" || rep == "json.Number-respelled" {
 		// does it also happen with float64? if not, the representation is part of the defect
 		if !c01Disagrees(kind, "float64", "")(ss, sv) {
-			feat["rep"] = "json.Number-only"
+			feat["rep"] = rep + "-only"
 		}
 	}
 	c.Violate(feat, c01W(ss, sv, rep, s, v), detail)
@@ -419,3 +431,145 @@ func firstKey(s gen.S) string {
 }
 
 func mustRaw(v any) json.RawMessage { b, _ := json.Marshal(v); return b }
+
+// c01RequestModeDefaults: validation the way the request and response validators call it (VisitAsRequest / VisitAsResponse
+// with DefaultsSet), on oneOf / anyOf schemas whose alternatives are told apart by a tag. Only alternatives that cannot match
+// the value (other tag, or a required member the value lacks) declare defaults, at depth 1 to 3 below the alternative; the
+// alternative the value is meant for declares none and is sensitive to members it was not sent (closed object, required,
+// property counts, not-required, member type). Defaults of an alternative that does not match are not part of the value, so
+// the verdict is the reference verdict of the same schema without any default keyword on the value as sent.
+func c01RequestModeDefaults(c *core.Ctx, idx *int) {
+	var strip func(v any) any
+	strip = func(v any) any {
+		switch t := v.(type) {
+		case map[string]any:
+			out := gen.S{}
+			for k, x := range t {
+				if k == "default" {
+					continue
+				}
+				out[k] = strip(x)
+			}
+			return out
+		case []any:
+			out := make([]any, len(t))
+			for i, x := range t {
+				out[i] = strip(x)
+			}
+			return out
+		}
+		return v
+	}
+	sensitive := []gen.S{
+		{"type": "object", "additionalProperties": false, "properties": gen.S{"timeout": gen.S{"type": "number"}}},
+		{"type": "object", "required": gen.Arr("retries")},
+		{"type": "object", "maxProperties": 1.0},
+		{"type": "object", "minProperties": 2.0},
+		{"type": "object", "not": gen.S{"required": gen.Arr("retries")}},
+		{"type": "object", "properties": gen.S{"retries": gen.S{"type": "string"}, "inner": gen.S{"type": "object", "additionalProperties": false}}},
+	}
+	withDefaults := func(depth int) gen.S {
+		switch depth {
+		case 1:
+			return gen.S{"type": "object", "properties": gen.S{"retries": gen.S{"type": "integer", "default": 3.0}, "timeout": gen.S{"type": "number"}}}
+		case 2:
+			return gen.S{"type": "object", "properties": gen.S{"retries": gen.S{"type": "integer", "default": 3.0}, "inner": gen.S{"type": "object", "default": gen.S{}, "properties": gen.S{"level": gen.S{"type": "string", "default": "x"}}}}}
+		}
+		return gen.S{"type": "object", "properties": gen.S{"inner": gen.S{"type": "object", "properties": gen.S{"level": gen.S{"type": "string", "default": "x"}, "deep": gen.S{"type": "object", "default": gen.S{"k": 1.0}}}}, "retries": gen.S{"type": "integer", "default": 3.0}}}
+	}
+	optsValues := []any{gen.S{}, gen.S{"timeout": 5.0}, gen.S{"retries": "r"}, gen.S{"timeout": 5.0, "retries": 1.0}, gen.S{"inner": gen.S{}}, gen.S{"inner": gen.S{}, "timeout": 1.0}}
+	for _, comp := range []string{"oneOf", "anyOf"} {
+		for _, tagKey := range []string{"kind", "zkind", "required-missing"} {
+			for si, sens := range sensitive {
+				for depth := 1; depth <= 3; depth++ {
+					for order := 0; order < 3; order++ {
+						for wrap := 0; wrap < 4; wrap++ {
+							mine := c.Mine(*idx)
+							*idx++
+							if !mine {
+								continue
+							}
+							alt := func(tag string, opts gen.S, matching bool) gen.S {
+								a := gen.S{"type": "object", "properties": gen.S{"opts": opts}}
+								switch tagKey {
+								case "required-missing":
+									if !matching {
+										a["required"] = gen.Arr("zz-never-sent")
+									}
+								default:
+									a["properties"].(gen.S)[tagKey] = gen.S{"enum": gen.Arr(tag)}
+									a["required"] = gen.Arr(tagKey)
+								}
+								return a
+							}
+							other1, other2 := alt("a", withDefaults(depth), false), alt("c", withDefaults(1+depth%3), false)
+							meant := alt("b", sens, true)
+							var alts []any
+							switch order {
+							case 0:
+								alts = gen.Arr(other1, meant)
+							case 1:
+								alts = gen.Arr(meant, other1)
+							default:
+								alts = gen.Arr(other1, meant, other2)
+							}
+							schema := gen.S{comp: alts}
+							wrapV := func(v any) any { return v }
+							switch wrap {
+							case 1:
+								schema = gen.S{"type": "object", "properties": gen.S{"body": schema}}
+								wrapV = func(v any) any { return gen.S{"body": v} }
+							case 2:
+								schema = gen.S{"type": "array", "items": schema}
+								wrapV = func(v any) any { return gen.Arr(v, gen.CloneValue(v)) }
+							case 3:
+								schema = gen.S{"allOf": gen.Arr(schema, gen.S{"type": "object"})}
+							}
+							refSchema := strip(schema).(gen.S)
+							c.BeginLazy(func() string { return "request-mode schema=" + gen.Canon(schema) })
+							sc, err := kinSchema(schema)
+							if err != nil {
+								continue
+							}
+							for _, ov := range optsValues {
+								inner := gen.S{"opts": gen.CloneValue(ov)}
+								if tagKey != "required-missing" {
+									inner[tagKey] = "b"
+								}
+								v := wrapV(inner)
+								ref := refeval.Eval(refSchema, v, refeval.Opts{})
+								if ref.V == refeval.Contested {
+									continue
+								}
+								want := ref.V == refeval.Accept
+								for _, mode := range []string{"VisitAsRequest", "VisitAsResponse"} {
+									kv := gen.CloneValue(v)
+									opt := openapi3.VisitAsRequest()
+									if mode == "VisitAsResponse" {
+										opt = openapi3.VisitAsResponse()
+									}
+									var verr error
+									c.Eval()
+									if pi := core.Guard(func() { verr = sc.VisitJSON(kv, opt, openapi3.DefaultsSet(func() {})) }); pi != nil {
+										c.Violate(map[string]string{"kind": "panic", "func": pi.Func, "class": pi.Class}, c01W(schema, v, mode, nil, nil), pi.Value+"\n"+core.Truncate(pi.Stack, 2500))
+										continue
+									}
+									c.Distinct(gen.Canon(schema) + "\x00" + gen.Canon(v) + mode)
+									c.Cover("request_mode_defaults", fmt.Sprintf("%s/sensitive#%d/accept=%v", comp, si, want))
+									if (verr == nil) != want {
+										kind := "false_accept"
+										if want {
+											kind = "false_reject"
+										}
+										c.Violate(map[string]string{"kind": kind, "section": "defaults-of-alternatives-that-do-not-match", "mode": mode, "composition": comp, "sensitive": fmt.Sprint(si)},
+											c01W(schema, v, mode, nil, nil), fmt.Sprintf("%s + DefaultsSet: schema=%s value=%s library error=%v; reference (same schema without default keywords, value as sent)=%s", mode, gen.Canon(schema), gen.Canon(v), verr, ref.V))
+									}
+								}
+							}
+						}
+					}
+				}
+			}
+		}
+	}
+}
